@@ -287,17 +287,17 @@ def tlc_walks(workdir, cfg_text, num, depth, seed, timeout=300):
     return walks, r
 
 
-def proto_cfg(handles, maxops, maxids, initn, opkinds, crash=False, knobs=None, invariants=True, readers=(), readerops=(), readermax=None):
+def proto_cfg(handles, maxops, maxids, initn, opkinds, crash=False, knobs=None, invariants=True, readers=(), readerops=(), readermax=None, live=False):
     k = dict(FixRelockOwner=True, FixRebase=True, FixTmpCleanup=True, FixReuseClose=True, FixCleanEnoent=True)
     k.update(knobs or {})
-    t = "SPECIFICATION Spec\nCONSTANTS\n"
+    t = ("SPECIFICATION FairSpec\nCONSTANTS\n  Record <- NoRecord\n" if live else "SPECIFICATION Spec\nCONSTANTS\n")
     t += "  Handles = {%s}\n  MaxOps = %d\n  MaxIds = %d\n  InitN = %d\n" % (", ".join(map(str, handles)), maxops, maxids, initn)
     t += "  OpKinds = {%s}\n  CrashOn = %s\n" % (", ".join('"%s"' % o for o in opkinds), "TRUE" if crash else "FALSE")
     t += "  ReaderHandles = {%s}\n  ReaderOps = {%s}\n  ReaderMaxOps = %d\n" % (", ".join(map(str, readers)), ", ".join('"%s"' % o for o in readerops),
                                                                                   maxops if readermax is None else readermax)
     for name, v in k.items():
         t += "  %s = %s\n" % (name, "TRUE" if v else "FALSE")
-    t += "VIEW view\nCHECK_DEADLOCK FALSE\n"
+    t += "CHECK_DEADLOCK FALSE\n" + ("PROPERTY C10_EveryCallReturns\n" if live else "VIEW view\n")
     if invariants:
         t += "INVARIANTS\n" + "".join("  %s\n" % i for i in PROTO_INVS)
     return t
